@@ -28,6 +28,7 @@ def alphabets():
         LetterAlphabet("ACGT"), LetterAlphabet("ACGTN"), LetterAlphabet(string.digits + string.ascii_letters + string.punctuation),
         KmerAlphabet(base, 2), KmerAlphabet(base, 5), Alphabet(["AAAAA", "GGGGG", "TTTTT", "ACGTA"]),
         NucleotideSequence.alphabet_amb, ProteinSequence.alphabet, Alphabet(["A", "C", "G", "T"]), LetterAlphabet("x"),
+        Alphabet(list(range(256))), Alphabet(list(range(257))), Alphabet(list(range(65536))), Alphabet(list(range(65537))),
     ]
 
 
@@ -65,6 +66,29 @@ def check_alphabet(i):
     code = a.encode_multiple(seq)
     if list(np.asarray(code).tolist()) != codes:
         return f"encode_multiple {list(code)} vs {codes}"
+    # any iterable of symbols: tuple, iterator, generator, reversed view, dict keys
+    if not hasattr(a, "_k"):
+        for label, it, want in (("tuple", tuple(seq), codes), ("iterator", iter(seq), codes), ("generator", (x for x in seq), codes),
+                                ("reversed", reversed(seq), codes[::-1]), ("dict keys", dict.fromkeys(seq).keys(), codes), ("empty iterator", iter(()), [])):
+            try:
+                got = np.asarray(a.encode_multiple(it)).tolist()
+            except TypeError:
+                continue          # (a container kind may be refused as such, but never mis-encoded)
+            if got != want:
+                return f"encode_multiple({label}) = {got} vs {want}"
+    # a sequence over this alphabet holds every code, the last one included (code dtype wide enough)
+    if syms is not None:
+        from biotite.sequence import GeneralSequence
+        picks = [syms[c] for c in codes]
+        gs = GeneralSequence(a, picks)
+        if [int(c) for c in gs.code] != codes or list(gs.symbols) != picks:
+            return f"GeneralSequence over {n} symbols: codes {[int(c) for c in gs.code]} vs {codes} (dtype {gs.code.dtype})"
+        gs2 = GeneralSequence(a, iter(picks))
+        if [int(c) for c in gs2.code] != codes:
+            return f"GeneralSequence from an iterator: codes {[int(c) for c in gs2.code]} vs {codes}"
+        gs.code = np.array(codes)
+        if [int(c) for c in gs.code] != codes or list(gs.symbols) != picks:
+            return f"code assignment over {n} symbols: {[int(c) for c in gs.code]} (dtype {gs.code.dtype})"
     back = a.decode_multiple(np.asarray(code))
     if [tuple(x) if isinstance(x, np.ndarray) else x for x in back] != [tuple(x) if isinstance(x, np.ndarray) else x for x in seq] \
             and [str(x) for x in back] != [str(x) for x in seq]:
@@ -312,6 +336,21 @@ def check_translate(codes, variant):
         want = "".join(aa(s[k:k + 3]) for k in range(0, len(s), 3))
         if got != want:
             return f"complete translation of {s}: {got} vs {want}"
+    # translation is defined on the unambiguous alphabet only: an ambiguous sequence is refused, never translated through
+    # codes that are not nucleotides
+    from biotite.sequence import AlphabetError
+    for amb_text in (s + "N", "ATGAAR", s):
+        amb = NucleotideSequence(amb_text, ambiguous=True)
+        for kw in (dict(complete=True), dict()):
+            if kw and len(amb_text) % 3:
+                continue
+            try:
+                r_ = amb.translate(codon_table=table, **kw)
+            except AlphabetError:
+                continue
+            except Exception as e_:
+                return f"translate() of the ambiguous sequence {amb_text} raised {type(e_).__name__} instead of AlphabetError"
+            return f"translate() of the sequence {amb_text} over the ambiguous alphabet answered {r_}"
     # documented defaults: met_start=False, complete=False
     dp, dpos = seq.translate(codon_table=table)
     ep, epos = seq.translate(codon_table=table, met_start=False, complete=False)
